@@ -56,10 +56,10 @@ def run(pid, tier, plan, oracle_name, monitors_name=None, assumptions=(), extra_
     total = explore.Summary()
     per_prog = []
     # wall-clock budget: programs not started when it is used up are listed as skipped in the
-    # evidence (never counted as explored); thorough defaults to 25 min per check,
+    # evidence (never counted as explored); thorough defaults to 10 min per check (raise with VF_BUDGET_S),
     # VF_BUDGET_S=0 lifts it
     env_b = os.environ.get("VF_BUDGET_S")
-    budget = (float(env_b) or None) if env_b is not None else (1500.0 if tier == "thorough" else None)
+    budget = (float(env_b) or None) if env_b is not None else (600.0 if tier == "thorough" else None)
     t0 = time.time()
     try:
         # programs explored at bound 0 (default schedule only) are dispatched in bulk
@@ -79,10 +79,10 @@ def run(pid, tier, plan, oracle_name, monitors_name=None, assumptions=(), extra_
             if budget and t1 - t0 > budget:
                 per_prog.append(dict(program=prog["name"], skipped="budget"))
                 continue
-            # with a budget, one program may use what is left of it (at least 5 min): a bound-2
+            # with a budget, one program may use what is left of it (at least 3 min): a bound-2
             # sweep that does not fit is cut between rounds of first-level subtrees and
             # reported as partial
-            limit = max(300.0, budget - (t1 - t0)) if budget else None
+            limit = max(180.0, budget - (t1 - t0)) if budget else None
             s = explore.explore(pool, prog, bound, opts, oracle_name, time_limit=limit)
             done, tot = getattr(s, "subtrees_done", 0), getattr(s, "subtrees_total", 0)
             per_prog.append(dict(program=prog["name"],
